@@ -53,6 +53,7 @@ var (
 	verbose  = flag.Bool("v", false, "verbose")
 	budgetS  = flag.Int("budget", 0, "per-harness wall-clock budget in seconds (0 = tier default)")
 	maxDec   = flag.Int("maxdec", 0, "per-path decision budget")
+	maxCex   = flag.Int("maxcex", 3, "counterexamples kept per obligation")
 	noEvid   = flag.Bool("noevidence", false, "do not write the evidence file")
 )
 
@@ -247,7 +248,7 @@ func checkMain() int {
 			defer wg.Done()
 			sem <- struct{}{}
 			defer func() { <-sem }()
-			opt := sym.Options{SolverBin: *solver, SolverArgs: []string{"-in"}, Budget: budget, Known: kregs, MaxDec: *maxDec, Tier: tierNum()}
+			opt := sym.Options{SolverBin: *solver, SolverArgs: []string{"-in"}, Budget: budget, Known: kregs, MaxDec: *maxDec, Tier: tierNum(), MaxCex: *maxCex}
 			if strings.Contains(*solver, "cvc5") {
 				opt.SolverArgs = []string{"--incremental", "--lang=smt2"}
 			}
